@@ -80,6 +80,20 @@ def ql(x):
     return "((%d) # %d)%%Q" % (f.numerator, f.denominator)
 
 
+def dbl(x):
+    """the double msdm is given for a generated parameter, as an exact rational (identity on dyadic parameters)"""
+    return F(float(vlib.frac(x)))
+
+
+def rd(x):
+    """round an exact rational to the nearest double: what ONE IEEE operation on exact operands returns"""
+    return F(float(x))
+
+
+def qd(x):
+    return ql(dbl(x))
+
+
 def zl(n):
     return "(%d)" % int(n)
 
@@ -97,7 +111,7 @@ def rowsl(rows):
 
 
 def frewl(fr):
-    return coqlist("(%s, %s)" % (nat(ord(f)), ql(r)) for f, r in fr.items())
+    return coqlist("(%s, %s)" % (nat(ord(f)), qd(r)) for f, r in fr.items())
 
 
 def fz(v):
@@ -120,8 +134,36 @@ GAMMAS = ["1/2", "3/4", "7/8", "9/10", "19/20", "1"]
 NEAR = ["1048575/1048576", "1/1073741824"]        # 1 - 2^-20 and 2^-30: exact doubles next to the boundaries
 
 
-def prob_choice(rng, base):
-    return rng.choice(NEAR) if rng.random() < .1 else rng.choice(base)
+P40, P52, P60 = "1/1099511627776", "1/4503599627370496", "1/1152921504606846976"
+Q40, Q52 = "1099511627775/1099511627776", "4503599627370495/4503599627370496"
+TINY = [P40, P52, Q40, Q52]            # 2^-40, 2^-52 and their complements: exact doubles far below isclose's atol
+NONDY = ["1/3", "1/10", "7/10", "2/7", "9/10", "2/3"]
+NONDY_R = ["1/10", "-7/10", "1/3", "-1/7", "-3/10"]
+
+
+def prob_choice(rng, base, tiny=TINY, nondy=True):
+    r = rng.random()
+    if r < .08:
+        return rng.choice(NEAR)
+    if r < .17:
+        return rng.choice(tiny)
+    if nondy and r < .25:
+        return rng.choice(NONDY)
+    return rng.choice(base)
+
+
+def is_dyadic(x):
+    d = F(x).denominator
+    return d & (d - 1) == 0
+
+
+def f32_exact(x):
+    f = F(x)
+    return is_dyadic(f) and abs(f.numerator).bit_length() <= 24 and f.denominator <= 2 ** 40
+
+
+def neg(v):
+    return v[1:] if v.startswith("-") else "-" + v
 
 
 def gamma_choice(rng, base):
@@ -188,16 +230,20 @@ def gen_gridworld(rng, rows=None, simple=False):
         feats["emptyroles"] = True
     gamma = gamma_choice(rng, GAMMAS)
     big = not simple and rng.random() < .06
+    ndr = not simple and not big and rng.random() < .1      # non-dyadic rewards (0.1, -0.7, 1/3 ...)
     if simple or rng.random() < .15:
         fr = None
     else:
         fr = {}
         for f in rng.sample(["g", "x", "a", "c", "s", "#"], rng.randint(0, 4)):
-            v = F(rng.choice([-1000000, 1000000, -65536, 1000])) if big else F(rng.randint(-40, 40), 4)
+            v = F(rng.choice([-1000000, 1000000, -65536, 1000, 1000000000, -4000000001])) / (1 if rng.random() < .5 else 4) \
+                if big else (F(rng.choice(NONDY_R)) if ndr else F(rng.randint(-40, 40), 4))
             if f not in absf and v > 0 and F(gamma) > F(99, 100):
                 v = -v          # gamma ~ 1: no positive-reward cycles (value iteration would not converge)
             fr[f] = str(v)
     step = rng.choice(["-1", "-1", "-1/2", "0", "-2", "1/4"]) if not big else rng.choice(["-1000", "-1"])
+    if ndr:
+        step = rng.choice(["-1/10", "-1/3"])
     if F(gamma) > F(99, 100) and F(step) > 0:
         step = "-1"
     rows = ["".join(r) for r in rows]
@@ -207,8 +253,22 @@ def gen_gridworld(rng, rows=None, simple=False):
             "ints": rng.random() < .4, "decoy": rng.random() < .3,
             "absorbing_features": absf, "wall_features": wallf, "initial_features": inif,
             "feature_rewards": fr, "step_cost": step,
-            "success_prob": prob_choice(rng, ["0", "1/4", "1/2", "3/4", "1", "1"]),
+            "success_prob": prob_choice(rng, ["0", "1/4", "1/2", "3/4", "1", "1"], tiny=TINY + [P60]),
             "discount_rate": gamma, "plan": not feats["nostart"], "feats": feats}
+    return finish(rng, case, ["step_cost", "success_prob"])
+
+
+def finish(rng, case, numeric_keys):
+    """forms and reuse scenarios shared by all domains"""
+    vals = [case[k] for k in numeric_keys] + list((case.get("feature_rewards") or {}).values())
+    pk = [case[k] for k in ("success_prob", "wind_probability", "coherence") if k in case]
+    if not case.get("ints") and all(f32_exact(v) for v in vals) and all(f32_exact(1 - F(v)) for v in pk) \
+            and rng.random() < .25:
+        case["np32"] = True          # numpy float32 scalars (only where every parameter is exact in float32)
+        case["ints"] = False
+    case["rebuild"] = rng.choice([None, None, 0, 1, 2])
+    case["shared_planner"] = rng.random() < .5
+    case.setdefault("decoy", rng.random() < .3)
     return case
 
 
@@ -226,22 +286,28 @@ def gen_windy(rng, default_fr=False, rows=None, wp=None):
     gamma = gamma_choice(rng, ["1/2", "3/4", "9/10", "19/20", "99/100", "1"])
     startf, goalf, wallf = rng.choice([(None, None, None)] * 3 + [("@$", "$", "#"), ("@x", "$x", "#"), ("@", "$", "#x")])
     goals = goalf or "$"
-    wprob = wp if wp is not None else prob_choice(rng, QUART)
-    big = rng.random() < .06 and wprob not in NEAR
+    wprob = wp if wp is not None else prob_choice(rng, QUART, tiny=[P40, Q40])
+    big = rng.random() < .06 and wprob in QUART
+    ndr = not big and rng.random() < .08
     fr = {}
     for f in rng.sample(["x", "$", ".", "^", "@"], rng.randint(0, 3)):
-        v = F(rng.choice([-1000000, 1000000, -65536, 1000])) if big else F(rng.randint(-40, 40), 4)
+        v = F(rng.choice([-1000000, 1000000, -65536, 1000])) if big else (F(rng.choice(NONDY_R)) if ndr else F(rng.randint(-40, 40), 4))
         if f not in goals and v > 0 and F(gamma) > F(99, 100):
             v = -v
         fr[f] = str(v)
-    return {"kind": "windy", "rows": ["".join(r) for r in rows], "feature_rewards": None if default_fr else fr,
-            "step_cost": rng.choice(["-1", "-1/2", "0"]), "wall_bump_cost": rng.choice(["-1", "0", "-5/2"]),
+    case = {"kind": "windy", "rows": ["".join(r) for r in rows], "feature_rewards": None if default_fr else fr,
+            "step_cost": rng.choice(["-1/10", "-1/3"]) if ndr else rng.choice(["-1", "-1/2", "0"]),
+            "wall_bump_cost": rng.choice(["-1", "0", "-5/2"]),
             "wind_probability": wprob, "discount_rate": gamma, "feats": feats,
             "start_features": startf, "goal_features": goalf, "wall_features": wallf,
             "pad": rng.random() < .4, "ints": rng.random() < .4, "decoy": rng.random() < .3}
+    # the windy pipeline performs several float operations per number: with non-dyadic inputs the exact-rational
+    # mirror is compared within 1e-12 (new inputs only; dyadic cases stay bit-exact)
+    case["approx"] = not all(is_dyadic(v) for v in [case["step_cost"], case["wall_bump_cost"], wprob] + list(fr.values()))
+    return finish(rng, case, ["step_cost", "wall_bump_cost", "wind_probability"])
 
 
-def gen_hh(rng, default=False):
+def gen_hh(rng, default=False, rows_in=None):
     feats = {"cut": False}
     if default:
         rows = None
@@ -255,10 +321,15 @@ def gen_hh(rng, default=False):
         if not any("s" in r for r in rows) or rng.random() < .2:
             place(rng, rows, "s", 1)
         rows = ["".join(r) for r in rows]
-    return {"kind": "heavenorhell", "rows": rows, "coherence": prob_choice(rng, QUART),
-            "discount_rate": gamma_choice(rng, ["1/2", "3/4", "19/20", "1"]), "step_cost": rng.choice(["-1", "-1/2", "0"]),
-            "heaven_reward": rng.choice(["50", "10", "0", "1000000"]), "hell_reward": rng.choice(["-50", "-10", "0", "-1000000"]),
+    if rows_in is not None:
+        rows = rows_in
+    case = {"kind": "heavenorhell", "rows": rows, "coherence": prob_choice(rng, QUART, tiny=TINY + [P60]),
+            "discount_rate": gamma_choice(rng, ["1/2", "3/4", "19/20", "1"]),
+            "step_cost": rng.choice(["-1", "-1/2", "0", "-1/10"]),
+            "heaven_reward": rng.choice(["50", "10", "0", "1000000", "1/3", "1000000000"]),
+            "hell_reward": rng.choice(["-50", "-10", "0", "-1000000", "-7/10"]),
             "feats": feats, "pad": rng.random() < .4, "ints": rng.random() < .4, "decoy": rng.random() < .3}
+    return finish(rng, case, ["coherence", "step_cost", "heaven_reward", "hell_reward"])
 
 
 def gen_cases(rng, tier):
@@ -272,8 +343,15 @@ def gen_cases(rng, tier):
             for cells in itertools.product(".#gs", repeat=h * w):
                 rows = [list(cells[i * w:(i + 1) * w]) for i in range(h)]
                 cases.append(gen_gridworld(rng, rows=rows, simple=True))
+    # sizes at the edges: a single cell (one non-terminal state), start = goal, corridors of odd length
+    for rows in (["s"], ["g"], ["s.....g"], ["s", ".", ".", ".", ".", ".", "g"]):
+        cases.append(gen_gridworld(rng, rows=[list(r) for r in rows], simple=True))
     for _ in range(nwd):
         cases.append(gen_windy(rng))
+    for rows in (["@"], ["@.....$"], [">>>@>>$"]):
+        cases.append(gen_windy(rng, rows=rows))
+    for rows in (["s"], ["s.....c"], ["g", ".", "s", ".", "h"]):
+        cases.append(gen_hh(rng, rows_in=rows))
     # rarely taken branches of _effect_of_walls: wind pushes off the grid and the action leaves on the other axis
     # (both clamps + two bump costs), wind into a wall, wind along a border, every wind direction at a corner
     for rows in (["<@"], ["@>"], ["v@"], ["^", "@"], ["@", "v"], ["<.", "@."], [".>", ".@"], ["#<@"], [">#", "@."], ["^@", "#."]):
@@ -282,11 +360,13 @@ def gen_cases(rng, tier):
     cases.append(gen_windy(rng, default_fr=True))
     for i in range(nhh):
         cases.append(gen_hh(rng, default=(i == 0)))
-    for c in QUART + NEAR:
+    for c in QUART + NEAR + TINY + NONDY:
         for g in (["3/4", "19/20"] if tier == "quick" else ["0", "1/2", "3/4", "19/20", "1"]):
-            cases.append({"kind": "tiger", "coherence": c, "discount_rate": g, "ints": c in ("0", "1") and g == "3/4"})
-    for n in ([1, 2, 3, 4, 5, 8] if tier == "quick" else list(range(1, 14)) + [20]):
-        cases.append({"kind": "loadunload", "nstates": n, "discount_rate": rng.choice(["1/2", "19/20", "99/100"])})
+            case = {"kind": "tiger", "coherence": c, "discount_rate": g, "ints": c in ("0", "1") and g == "3/4"}
+            cases.append(finish(rng, case, ["coherence"]))
+    for n in ([1, 2, 3, 4, 5, 7, 8] if tier == "quick" else list(range(1, 14)) + [20]):
+        case = {"kind": "loadunload", "nstates": n, "discount_rate": rng.choice(["1/2", "19/20", "99/100"])}
+        cases.append(finish(rng, case, []))
     cases.append({"kind": "cliff"})
     return cases
 
@@ -415,11 +495,22 @@ def model_dist(lst, nkey):
     d = {}
     for e in lst:
         k = tup(e[:nkey]) if nkey > 1 else e[0]
-        p, r = fz(e[nkey]), fz(e[nkey + 1])
+        p, r = rd(fz(e[nkey])), rd(fz(e[nkey + 1]))
         if p == 0:
             continue
         d[k] = (d[k][0] + p, r) if k in d else (p, r)
     return d
+
+
+def close_dist(md, idd, tol=F(1, 10 ** 12)):
+    """same support; probabilities and rewards within 1e-12 (only used for non-dyadic windy inputs)"""
+    if set(md) != set(idd):
+        return False
+    for k in md:
+        (p, r), (ip, ir) = md[k], idd[k]
+        if ip is None or ir is None or abs(p - ip) > tol or abs(r - ir) > tol * (1 + abs(r)):
+            return False
+    return True
 
 
 def uniform_ok(impl_init, model_init, nkey):
@@ -444,16 +535,16 @@ def gw_frew(case):
 def gw_term(case):
     return "gw_dump (mkGW %s %s %s %s %s %s %s)" % (
         rowsl(case["rows"]), symlist(case["absorbing_features"]), symlist(case["wall_features"]),
-        symlist(case["initial_features"]), frewl(gw_frew(case)), ql(case["step_cost"]), ql(case["success_prob"]))
+        symlist(case["initial_features"]), frewl(gw_frew(case)), qd(case["step_cost"]), qd(case["success_prob"]))
 
 
 def gw_oracle(case, res):
     """the grid-world clauses of the property, evaluated on msdm's output with Fractions (independent of the Coq model)"""
     rows = case["rows"]
     h, w = len(rows), len(rows[0])
-    p = F(case["success_prob"])
-    step = F(case["step_cost"])
-    fr = {f: F(v) for f, v in gw_frew(case).items()}
+    p = dbl(case["success_prob"])          # the doubles msdm was given
+    step = dbl(case["step_cost"])
+    fr = {f: dbl(v) for f, v in gw_frew(case).items()}
 
     def ch(s):
         x, y = s
@@ -488,9 +579,9 @@ def gw_oracle(case, res):
                     out.append(("moves-more-than-one-cell", det))
                 if ns != s and (ch(ns) is None or feat(ns) in case["wall_features"]):
                     out.append(("enters-wall-or-leaves-grid", det))
-                if r != step + fr.get(feat(ns), F(0)):
+                if r != rd(step + fr.get(feat(ns), F(0))):       # one float addition: correctly rounded sum
                     out.append(("reward-is-not-step-cost-plus-entered-cell-feature-reward", dict(det, successor=ns)))
-            want = ({tgt: p, s: 1 - p} if free else {s: F(1)})
+            want = ({tgt: p, s: rd(1 - p)} if free else {s: F(1)})     # 1 - p is one float subtraction
             want = {k: v for k, v in want.items() if v != 0}
             if {k: v[0] for k, v in d.items()} != want:
                 out.append(("success-probability-not-exact", dict(det, expected={str(k): str(v) for k, v in want.items()})))
@@ -566,7 +657,7 @@ def gw_compare(case, res, val):
 # other domains: terms and comparers
 # ---------------------------------------------------------------------------------------------
 def tiger_term(case):
-    return "tiger_dump %s" % ql(case["coherence"])
+    return "tiger_dump %s" % qd(case["coherence"])
 
 
 TS = {"left": 0, "right": 1}
@@ -589,7 +680,11 @@ def tiger_compare(case, res, val):
     iobs = {a: {ns: {TS[o]: fr_of(p) for o, p in d if fr_of(p) != 0} for ns, d in per} for a, per in res.get("obs", [])}
     for ai, a in enumerate(["left", "right", "listen"]):
         for si, s in enumerate(["left", "right"]):
-            md = {e[0]: fz(e[1]) for e in obs[ai][si] if fz(e[1]) != 0}
+            md = {e[0]: rd(fz(e[1])) for e in obs[ai][si]}
+            if a == "listen" and s == "right":
+                # tiger.py computes right = 1 - pleft with pleft = 1 - coherence: two roundings
+                md[1] = rd(1 - rd(1 - dbl(case["coherence"])))
+            md = {k: v for k, v in md.items() if v != 0}
             if iobs.get(a, {}).get(s) != md:
                 diffs.append("observation_dist")
     if {TS[s]: fr_of(p) for s, p in res.get("init", [])} != {e[0]: fz(e[1]) for e in init}:
@@ -600,12 +695,13 @@ def tiger_compare(case, res, val):
 def tiger_oracle(case, res):
     """property clause specific to tiger beyond well-formedness: listening reports the tiger's side with probability coherence"""
     out = []
-    c = F(case["coherence"])
+    c0 = dbl(case["coherence"])
     for a, per in res.get("obs", []):
         if a != "listen":
             continue
         for ns, d in per:
             dd = {o: fr_of(p) for o, p in d}
+            c = c0 if ns == "left" else rd(1 - rd(1 - c0))      # = c0 whenever 1 - c0 is a double
             if dd.get(ns) != c:
                 out.append(("listen-accuracy-is-not-coherence", {"next_state": ns, "dist": d, "coherence": str(c)}))
     return out
@@ -653,8 +749,8 @@ def hh_state(s):
 
 def hh_term(case, res):
     return "hh_dump %s %s %s %s %s %s" % (
-        rowsl(hh_rows(case)), ql(case["coherence"]), ql(case["step_cost"]), ql(case["heaven_reward"]),
-        ql(case["hell_reward"]), coqlist(hh_state(s) for s in res["state_list"]))
+        rowsl(hh_rows(case)), qd(case["coherence"]), qd(case["step_cost"]), qd(case["heaven_reward"]),
+        qd(case["hell_reward"]), coqlist(hh_state(s) for s in res["state_list"]))
 
 
 def hh_key(s):
@@ -680,7 +776,7 @@ def hh_compare(case, res, val):
         for ment, ient in zip(macts, irow["next"]):
             x, y, hv, r = ment
             idd = {hh_key(k): v for k, v in impl_dist(ient).items()}
-            if idd != {(x, y, hv): (F(1), fz(r))}:
+            if idd != {(x, y, hv): (F(1), rd(fz(r)))}:
                 diffs.append("next_state_dist/reward")
     iobs = {tup(a): per for a, per in res.get("obs", [])}
     for ai, a in enumerate(HHA):
@@ -689,7 +785,7 @@ def hh_compare(case, res, val):
             diffs.append("observation_dist")
             continue
         for (ns, d), mo in zip(per, obs[ai]):
-            md = {(e[0], e[1], chr(e[2])): fz(e[3]) for e in mo if fz(e[3]) != 0}
+            md = {(e[0], e[1], chr(e[2])): rd(fz(e[3])) for e in mo if rd(fz(e[3])) != 0}
             idd = {}
             for o, p in d:
                 if fr_of(p) != 0:
@@ -706,7 +802,7 @@ def hh_compare(case, res, val):
 def windy_term(case, res):
     fr = case["feature_rewards"] or {}
     w = "(mkWindy %s %s %s %s %s %s %s %s)" % (
-        rowsl(case["rows"]), frewl(fr), ql(case["step_cost"]), ql(case["wall_bump_cost"]), ql(case["wind_probability"]),
+rowsl(case["rows"]), frewl(fr), qd(case["step_cost"]), qd(case["wall_bump_cost"]), qd(case["wind_probability"]),
         symlist(case.get("start_features") or "@"), symlist(case.get("goal_features") or "$"),
         symlist(case.get("wall_features") or "#"))
     return "windy_dump %s %s" % (w, coqlist(posl(s) for s in res["state_list"]))
@@ -715,7 +811,7 @@ def windy_term(case, res):
 GMA = [(0, -1), (0, 1), (1, 0), (-1, 0)]
 
 
-def grid_compare(res, rows, init):
+def grid_compare(res, rows, init, approx=False):
     diffs = []
     for mrow, irow in zip(rows, res["rows"]):
         mabs, macts = mrow
@@ -728,7 +824,8 @@ def grid_compare(res, rows, init):
             diffs.append("actions")
             continue
         for ment, ient in zip(macts, irow["next"]):
-            if model_dist(ment, 2) != impl_dist(ient):
+            md, idd = model_dist(ment, 2), impl_dist(ient)
+            if (not close_dist(md, idd)) if approx else (md != idd):
                 diffs.append("next_state_dist/reward")
     if "init" not in res or not uniform_ok(res["init"], init, 2):
         diffs.append("initial_state_dist")
@@ -737,6 +834,56 @@ def grid_compare(res, rows, init):
 
 def cliff_term(case, res):
     return "cliff_dump cliff_grid %s" % coqlist(posl(s) for s in res["state_list"])
+
+
+def input_features(cases, impl):
+    """measured counters for the audit classes (numbers of generated cases / entries)"""
+    def probs(c):
+        return [c[k] for k in ("success_prob", "wind_probability", "coherence") if k in c]
+
+    def nums(c):
+        return probs(c) + [c[k] for k in ("step_cost", "wall_bump_cost", "heaven_reward", "hell_reward") if k in c] \
+            + list((c.get("feature_rewards") or {}).values())
+    tiny = lambda v: 0 < F(v) < F(1, 2 ** 27) or 0 < 1 - F(v) < F(1, 2 ** 27)
+    f = {
+        "tiny_probability_cases(<2^-27 from 0 or 1)": sum(1 for c in cases if any(tiny(v) for v in probs(c))),
+        "tiny_probability_2^-60": sum(1 for c in cases if P60 in probs(c)),
+        "non_dyadic_probability_cases": sum(1 for c in cases if any(not is_dyadic(v) for v in probs(c))),
+        "non_dyadic_reward_cases": sum(1 for c in cases if any(not is_dyadic(v) for v in nums(c)[len(probs(c)):])),
+        "windy_compared_within_1e-12": sum(1 for c in cases if c.get("approx")),
+        "magnitude>=1e6_cases": sum(1 for c in cases if any(abs(F(v)) >= 10 ** 6 for v in nums(c))),
+        "magnitude>=1e9_cases": sum(1 for c in cases if any(abs(F(v)) >= 10 ** 9 for v in nums(c))),
+        "int_parameters": sum(1 for c in cases if c.get("ints")),
+        "numpy_float32_parameters": sum(1 for c in cases if c.get("np32")),
+        "decoy_object_first": sum(1 for c in cases if c.get("decoy")),
+        "rebuilt_after_k_unrelated_objects": {str(k): sum(1 for c in cases if c.get("rebuild") == k) for k in (0, 1, 2)},
+        "shared_planner_object": sum(1 for c in cases if c.get("shared_planner")),
+        "discount_0": sum(1 for c in cases if c.get("discount_rate") == "0"),
+        "discount_1-2^-20(VI to its iteration cap)": sum(1 for c in cases if c.get("discount_rate") == "1048575/1048576"),
+    }
+    one_state = eq = tinyent = arrays_checked = 0
+    corr = set()
+    for c, r in zip(cases, impl):
+        sl = r.get("state_list")
+        if not sl:
+            continue
+        nonterm = [s for s in sl if s != [-1, -1]]
+        one_state += len(nonterm) == 1
+        na = len((r.get("rows") or [{}])[0].get("actions", []))
+        eq += len(sl) == na
+        if c.get("rows") and (len(c["rows"]) == 1 or len(c["rows"][0]) == 1):
+            corr.add(max(len(c["rows"]), len(c["rows"][0])))
+        for row in r.get("rows", []):
+            for ent in row.get("next", []):
+                for ns, p, rw in ent:
+                    pf = fr_of(p)
+                    if pf is not None and 0 < pf < F(1, 2 ** 27):
+                        tinyent += 1
+        arrays_checked += bool(r.get("arrays", {}).get("arrays_match"))
+    f.update({"one_nonterminal_state_cases": one_state, "n_states_equals_n_actions_cases": eq,
+              "corridor_lengths": sorted(corr), "transition_entries_with_probability<2^-27": tinyent,
+              "cases_with_arrays_equal_to_functions_exactly": arrays_checked})
+    return f
 
 
 # ---------------------------------------------------------------------------------------------
@@ -806,6 +953,17 @@ def run(ctx):
         for st in ("arrays", "plan", "extras"):
             if st in se and not outside:    # a successor outside the state list is the reported root cause
                 viol(case, "%s-raise:%s" % (st, se[st].split(":")[0]), {"stage_error": se})
+        if "arrays" in res and res["arrays"].get("arrays_match") is False:
+            viol(case, "tabular-arrays-differ-from-functions",
+                 {"clause": "transition / reward / initial / observation arrays do not hold exactly what next_state_dist, reward, "
+                            "initial_state_dist, observation_dist return (an entry was dropped or changed)",
+                  "mismatch": res["arrays"].get("arrays_mismatch")})
+        if res.get("rebuild_same") not in (None, True) and not outside:
+            viol(case, "same-problem-built-twice-differs",
+                 {"clause": "a second object of the same problem, built after unrelated objects of the same class, answers differently",
+                  "rebuild": res.get("rebuild_same")})
+        if res.get("mutated"):
+            viol(case, "caller-or-shared-object-mutated", {"mutated": res["mutated"]})
         if "arrays" in res:
             ar = res["arrays"]
             if not (ar["rows_normalised"] and ar["nonneg"] and ar["reward_finite"] and ar.get("obs_normalised", True)):
@@ -899,7 +1057,7 @@ def run(ctx):
                 else:
                     rows, init = v
                     cnon = True
-                diffs = grid_compare(res, rows, init)
+                diffs = grid_compare(res, rows, init, approx=bool(case.get("approx")))
                 if diffs:
                     viol(case, "mirror-differs:" + "+".join(diffs), {"diffs": diffs}, found=False)
                 if not cnon:
@@ -927,7 +1085,7 @@ def run(ctx):
         "gridworld_features": {k: sum(1 for c in gwc if c["feats"].get(k)) for k in ("cut", "nostart", "overlap", "emptyroles")},
         "gridworld_sizes": sorted({"%dx%d" % (len(c["rows"][0]), len(c["rows"])) for c in gwc}),
         "success_probs": {p: sum(1 for c in gwc if c["success_prob"] == p) for p in QUART},
-        "cases": len(cases), "violation_signature_counts": sig_count, "gridworld_branch_counts": branches,
+        "cases": len(cases), "input_features": input_features(cases, impl), "violation_signature_counts": sig_count, "gridworld_branch_counts": branches,
         "representations": {k: sum(1 for c in cases if c.get(k)) for k in ("ints", "decoy", "pad")},
         "gridworld_forms": {f: sum(1 for c in gwc if c.get("tile_as") == f or c.get("feat_form") == f or c.get("frew_form") == f)
                             for f in ("list", "str", "tuple", "str_padded", "dict", "pairs")},
